@@ -374,6 +374,40 @@ class spmatrix(object):
             pp = pm[key]
             return spmatrix._from_dense(r, [bool(e) for e in pp.v])
         return r
+    def __setitem__(self, key, val):
+        if self._ro: raise ReadOnlyViolation('write to a read-only (input) matrix')
+        d = self._dense()
+        pm = matrix.__new__(matrix); pm._ro = False; pm.typecode = 'i'
+        pm.v = [1 if p else 0 for p in self.pat]; pm._size = self._size
+        if isinstance(val, spmatrix):
+            vp = matrix.__new__(matrix); vp._ro = False; vp.typecode = 'i'
+            vp.v = [1 if p else 0 for p in val.pat]; vp._size = val._size
+            d[key] = val._dense(); pm[key] = vp
+        else:
+            d[key] = val
+            pm[key] = 1
+        self.v = [_conv(e, 'd') for e in d.v]; self.pat = [bool(e) for e in pm.v]
+    def __iadd__(self, o):
+        r = self.__add__(o)
+        if isinstance(r, spmatrix): self.v, self.pat = r.v, r.pat; return self
+        raise TypeError('in-place operation would change type')
+    def __isub__(self, o):
+        r = self.__sub__(o)
+        if isinstance(r, spmatrix): self.v, self.pat = r.v, r.pat; return self
+        raise TypeError('in-place operation would change type')
+    def __imul__(self, o):
+        r = self.__mul__(o)
+        if isinstance(r, spmatrix) and r._size == self._size: self.v, self.pat = r.v, r.pat; return self
+        raise TypeError('in-place operation would change type or size')
+    def __itruediv__(self, o):
+        r = self.__truediv__(o)
+        if isinstance(r, spmatrix): self.v, self.pat = r.v, r.pat; return self
+        raise TypeError('in-place operation would change type')
+    def __abs__(self):
+        return spmatrix._from_dense(abs(self._dense()), self.pat)
+    def __iter__(self):
+        return iter([self.v[p] for p in range(len(self.v)) if self.pat[p]])
+    def __bool__(self): return any(self.pat)
     @property
     def V(self):
         return matrix([self.v[p] for p in range(len(self.v)) if self.pat[p]], tc='d') if any(self.pat) else matrix(0.0, (0, 1))
@@ -390,6 +424,8 @@ class spmatrix(object):
     def __pos__(self):
         return spmatrix._from_dense(self._dense(), self.pat)
     def __mul__(self, o):
+        if isinstance(o, matrix) and o.size == (1, 1) and self._size[1] != 1:
+            o = o.v[0]                      # 1x1 dense matrix acts as a scalar: result stays sparse
         if isinstance(o, (int, float)):
             return spmatrix._from_dense(self._dense() * o, self.pat)
         if isinstance(o, spmatrix):
@@ -403,6 +439,8 @@ class spmatrix(object):
             return self._dense() * o
         return NotImplemented
     def __rmul__(self, o):
+        if isinstance(o, matrix) and o.size == (1, 1) and self._size[0] != 1:
+            o = o.v[0]
         if isinstance(o, (int, float)):
             return spmatrix._from_dense(o * self._dense(), self.pat)
         if isinstance(o, matrix):
@@ -431,6 +469,7 @@ class spmatrix(object):
         if isinstance(o, (matrix, int, float)): return o - self._dense()
         return NotImplemented
     def __truediv__(self, o):
+        if isinstance(o, matrix) and len(o.v) == 1: o = o.v[0]
         if isinstance(o, (int, float)):
             return spmatrix._from_dense(self._dense() / o, self.pat)
         return NotImplemented
